@@ -36,6 +36,17 @@ pub struct Walrus {
     pub(super) fsync_schedule: FsyncSchedule,
 }
 
+impl Drop for Walrus {
+    fn drop(&mut self) {
+        // The marker persister thread only holds a weak reference and stops once the
+        // tracker is gone, discarding whatever it had queued; write the current marker
+        // state synchronously so that a clean shutdown never loses a marker.
+        if let Err(err) = self.topic_clean_tracker.flush() {
+            debug_print!("[clean] persist on shutdown failed: {}", err);
+        }
+    }
+}
+
 impl Walrus {
     pub fn new() -> std::io::Result<Self> {
         Self::with_consistency(ReadConsistency::StrictlyAtOnce)
